@@ -127,6 +127,13 @@ class Program:
             from .normalize import normalise_function
             from .records import normalise_records
             normalise_records(self)
+            # predicates of the package that were extracted into module-level functions are read where they are tested
+            from .normalize import _inline_test_predicates
+            for mi in self.modules.values():
+                for ci in mi.classes.values():
+                    for m in ci.methods.values():
+                        if any(isinstance(x, ast.If) and isinstance(x.test, (ast.Call, ast.UnaryOp)) for x in ast.walk(m)):
+                            _inline_test_predicates(self, ci, m, set(), methods_too="final")
             for mi in self.modules.values():
                 for fn in [n for n in ast.walk(mi.tree) if isinstance(n, ast.FunctionDef)]:
                     normalise_function(fn, self)
